@@ -21,8 +21,8 @@ def S(name, quick, thorough, **kw):
 
 
 PROPS = {
-    'C01': dict(modules=['NutsProofs.Props.C01'], suites=[S('db-kv', (60, 150), (1500, 200))]),
-    'C03': dict(modules=['NutsProofs.Props.C03'], suites=[S('db-kv', (60, 150), (1500, 200))]),
+    'C01': dict(modules=['NutsProofs.Props.C01'], suites=[S('db-kv', (60, 150), (1500, 200)), S('db-kvbig', (30, 200), (600, 300))]),
+    'C03': dict(modules=['NutsProofs.Props.C03'], suites=[S('db-kv', (60, 150), (1500, 200)), S('db-kvbig', (40, 200), (800, 300))]),
     'C04': dict(modules=['NutsProofs.Props.C04'], suites=[S('db-iso', (60, 150), (1500, 200))]),
     'C05': dict(modules=['NutsProofs.Props.C05'],
                 suites=[S('list-ds', (150, 40), (4000, 60)), S('db-list', (50, 150), (1000, 200))],
